@@ -2,6 +2,9 @@
 C02 — best-effort tree construction follows the token sequence, however nested.
 Stream `C02`: histories of 1-3 parses on one parser object; each parse is an abstract token sequence rendered to
 markup by a rich renderer; the model gets the token list the real tokenizer reports for that markup.
+Further case kinds on the same stream: `wrap` (`utils.addStartTag` at character level), `strip` (`utils.stripIEConditionals`
+at character level: model vs the real function; oracle: parseStr(text) is the rest of `feed` applied to the stripped text),
+`stripparse` (parseStr of a text with IE conditional comments: model strips, real tokenizer, model builds).
 """
 import io
 import itertools
@@ -90,6 +93,138 @@ def render_token(t, rng):
 def render(toks, rich):
     rng = random.Random(rich) if rich else None
     return ''.join(render_token(t, rng) for t in toks)
+
+
+# ---- texts with Internet-Explorer conditional comments (`utils.stripIEConditionals`, the first step of `feed`) ----------
+
+IE_OPENERS = ['<!--[if IE]>', '<!--[if lt IE 9]>', '<!--[if IE 6]>', '<!--[if gte IE 8]>', '<!--[if !IE]><!-->',
+              '<!--[if gt IE 8]><!-->', '<!-- [if IE]>', '<!--[ if IE]>', '<!--\t[\r\n if IE 7]>', '<!--\n[if IE]>',
+              '<!--  [  if (IE 6)|(IE 7)]>', '<!--[if]>', '<!--[ifIE]>', '<!--[if IE]-->']
+IE_CLOSERS = ['<![endif]-->', '<!--<![endif]-->', '<![endif]-->', '<![endif] -->', '-->']
+IE_BODIES = ['<html class="ie">', '<html class="ie6" lang="en">', '<p>IE only</p>', '<link rel="stylesheet" href="ie.css">',
+             '', 'x', '<html>', '<div>a --> b</div>', '<script src="html5shiv.js"></script>', '<b>--></b>', 'a\nb',
+             '\n<p>multi</p>\n']
+IE_NEAR = ['<!-- [if', '<!--[ if', '<!--[IF IE]>x<![endif]-->', '<!-- if IE]>x<![endif]-->', '<!-[if IE]>x<![endif]-->',
+           '<!---[if IE]>x<![endif]-->', '<!--[i f IE]>x<![endif]-->', '<!--[\x0bif IE]>x<![endif]-->',
+           '<!--[\xa0if IE]>x<![endif]-->', '<!--[if IE]>x<![endif]--', '<!--[if IE]>x\n<![endif]-->', '<![if !IE]><p>y</p><![endif]>',
+           '<!--[If IE]>x-->', '<! --[if IE]>x-->', '<!--[if IE]>x -->', '<!--[if IE]>x\r-->', '<!--[iff IE]>x-->',
+           '<!--[\n\n if\nIE]>x-->', '<!--[if IE]>\n-->']
+IE_PLAIN = ['<head><title>t</title></head>', '<body>', '<p>text</p>', '</body>', '<!-- plain -->', '<br/>', 'text', ' ', '\n',
+            '<div id="a">x</div>', '<!---->', '-->', '<a href="x-->y">l</a>']
+IE_HTML_OPEN = ['<html>', '<HTML>', '<html >', '< html>', '<html lang="en">', '<\nhtml\t>', '<htmlx>']
+IE_HTML_CLOSE = ['</html>', '</HTML>', '</ html >', '</html\n>', '</htm>', '< /html>', '</html x>']
+IE_DOCTYPES = ['<!DOCTYPE html>', '<!doctype html>\n', '\n<!DOCTYPE html PUBLIC "-//W3C//DTD XHTML 1.0//EN">', '  <!DOCTYPE html>',
+               ' \n<!DOCTYPE html>', '<!DOCTYPE html']
+# fragments for the enumerated part: every concatenation of up to 4 (quick) / 5 (thorough) of them
+IE_FRAGS = ['<!--', '[if', ' ', '\n', '-->', 'x', '</html>', '<html>', '<!DOCTYPE html>', '-', '<!--[if a]>b-->']
+# hand-written: what `replace` (every occurrence, in match order) and the greedy `.*` do
+IE_FIXED = [
+    '<!--[if a]-->\n<!--[if b]--><!--[if a]-->',                # the first match also occurs inside the second
+    '<!-<!--[if x]-->-\n[if y]-->',                              # removing a match creates a new conditional
+    '<!--[if IE]>a<![endif]--> <!-- other --> tail',            # `.*` runs to the LAST --> of the line
+    '<!--[if IE]>a<![endif]-->\n<!-- other -->\ntail',
+    '<!--[if IE]>a<![endif]--><!--[if IE]>a<![endif]-->',       # two on one line: one match
+    '<!--[if IE]>a<![endif]-->\n<!--[if IE]>a<![endif]-->',     # repeated identical ones
+    'x<!--[if IE]>a<![endif]-->y<!--[if IE]>a<![endif]-->\nz<!--[if IE]>a<![endif]-->',
+    '<!--[if--->', '<!--[if-->-->', '<!--[if-->->', '<!--[if--', '<!--[if-- >', '<!--[if>-->-', '<!--[if\n-->',
+    '<!DOCTYPE html>\n<!--[if lt IE 7]><html class="ie6"><![endif]-->\n<!--[if IE 7]><html class="ie7"><![endif]-->\n'
+    '<!--[if gt IE 8]><!--><html><!--<![endif]-->\n<head></head><body><p>x</p></body></html>',
+    '<!DOCTYPE html>\n<!--[if lt IE 7]><html class="ie6"><![endif]-->\n<head></head><body><p>x</p></body></html>',
+    '<!--[if IE]><html><![endif]--><body></body></html>',
+    '\n  <!DOCTYPE html><!--[if IE]><html><![endif]--><body></body></html>',
+    ' \n<!DOCTYPE html><!--[if IE]><html><![endif]--><body></body></html>',
+    '<!--[if IE]><html><![endif]--><body></body></HTML\t>',
+    '<!--[if IE]><html><![endif]--><body></body></html><html>',
+    '<!--[if IE]>x-->ab<!--[if IE]>x-->', 'a<!--[if IE]>x-->b\na<!--[if IE]>x-->b', '',
+    '<!--[if IE]>x--><!--[if IE]>x-->\n<!--[if IE]>x-->',
+    '<p a="<!--[if IE]>">x</p> --> y', '<!--[if IE]>\r\n<p>x</p>\r\n<![endif]-->', '<!--[if IE]>x\r<![endif]-->',
+]
+
+
+def ie_conditional(rng):
+    return rng.choice(IE_OPENERS) + rng.choice(IE_BODIES) + rng.choice(IE_CLOSERS)
+
+
+def ie_text(rng):
+    """a document with 0-3 IE conditional comments in the usual places, near misses, and the html-tag situations"""
+    parts = []
+    if rng.random() < 0.4:
+        parts.append(rng.choice(IE_DOCTYPES))
+    nconds = rng.choice((0, 1, 1, 1, 2, 2, 3))
+    conds = [ie_conditional(rng) for _ in range(nconds)]
+    if conds and rng.random() < 0.3:
+        conds.append(rng.choice(conds))                         # a repeated identical one
+    body = []
+    if rng.random() < 0.5:
+        body.append(rng.choice(IE_HTML_OPEN))
+    for _ in range(rng.randint(0, 5)):
+        r = rng.random()
+        body.append(rng.choice(IE_NEAR) if r < 0.2 else rng.choice(IE_PLAIN))
+    if rng.random() < 0.6:
+        body.append(rng.choice(IE_HTML_CLOSE))
+    # conditionals go in front (the usual place), or anywhere
+    for c in conds:
+        if rng.random() < 0.6:
+            body.insert(0, c)
+        else:
+            body.insert(rng.randint(0, len(body)), c)
+    sep = rng.choice(['', '', '\n', '\n', ' ', '\r\n'])
+    out = []
+    for b in body:
+        out.append(b)
+        out.append(sep if rng.random() < 0.8 else rng.choice(['', '\n']))
+    return ''.join(parts) + ''.join(out)
+
+
+IE_MARKER = None
+
+
+def ie_expected(text):
+    """What C02g's theorems say `stripIEConditionals(text)` is, computed without calling it: ('id' | 'several', result)
+    when `stripIE_id` / `stripIE_several` (Props/C02.lean) apply, else None.  The matches are taken from the real
+    `findall` (their shape is `ieMatch_reading`), the side conditions are evaluated here."""
+    import re
+    global IE_MARKER
+    if IE_MARKER is None:
+        IE_MARKER = re.compile('<!--[ \t\r\n]*\\[[ \t\r\n]*if')
+    from AdvancedHTMLParser.utils import IE_CONDITIONAL_PATTERN
+    if not IE_MARKER.search(text):
+        return ('id', text)
+    ms = list(IE_CONDITIONAL_PATTERN.finditer(text))
+    if not ms:
+        return None
+    conds = [m.group(0) for m in ms]
+    gaps, pos = [], 0
+    for m in ms:
+        gaps.append(text[pos:m.start()])
+        pos = m.end()
+    gaps.append(text[pos:])
+    joined = ''.join(gaps)
+    if IE_MARKER.search(joined) or any(IE_MARKER.search(c[1:]) for c in conds):
+        return None
+    if any(a != b and (a.startswith(b) or b.startswith(a)) for a in conds for b in conds):
+        return None
+    # the html-tag rule (addHtmlIfMissing_cases)
+    ws = '[ \t\r\n]*'
+    word = '[hH][tT][mM][lL]'
+    if re.search('</' + ws + word + ws + '>', joined) and not re.search('<' + ws + word + ws + '>', joined):
+        d = re.match('[\n]*[ \t]*<![dD][oO][cC][tT][yY][pP][eE][^>]*>', joined)
+        k = d.end() if d else 0
+        joined = joined[:k] + '<html>' + joined[k:]
+    return ('several', joined)
+
+
+def ie_raw_feed(parser, text):
+    """`AdvancedHTMLParser.feed` after its first line: what the parser does with the (already stripped) text"""
+    from html.parser import HTMLParser
+    from AdvancedHTMLParser.exceptions import MultipleRootNodeException
+    from AdvancedHTMLParser.utils import addStartTag
+    from AdvancedHTMLParser.constants import INVISIBLE_ROOT_TAG_START, INVISIBLE_ROOT_TAG_END
+    try:
+        HTMLParser.feed(parser, text)
+    except MultipleRootNodeException:
+        parser.reset()
+        HTMLParser.feed(parser, '%s%s' % (addStartTag(text, INVISIBLE_ROOT_TAG_START), INVISIBLE_ROOT_TAG_END))
 
 
 # ---- the specification: recursive descent over the token sequence, no stack ---------------------------------------
@@ -278,9 +413,18 @@ class Check(PropCheck):
             'random sequences of length <= 40 over a rich alphabet rendered with mixed-case names, double/single/unquoted/'
             'value-less/duplicate/invalid attributes, whitespace variants and an optional leading doctype (same line or own '
             'line); histories of 1-3 parses on one plain or indexed parser through str / bytes / file object / path / '
-            'constructor entry points. Non-trivial: at least 2 tokens and at least one element; distinct by canonical JSON.')
+            'constructor entry points. Non-trivial: at least 2 tokens and at least one element; distinct by canonical JSON. '
+            'Kind strip (stripIEConditionals, character level): hand-written texts, ALL concatenations of <= 3 (quick) / <= 4 '
+            '(thorough) of 11 fragments (comment open, [if, blank, newline, -->, x, </html>, <html>, a doctype, a dash, a whole '
+            'conditional), seeded documents with 0-3 conditional comments (usual, downlevel-revealed, white space in the opener, '
+            'several per line, repeated, --> later on the line, html end tag with/without start tag, doctype in front) and near '
+            'misses, and fragment soup. Kind stripparse: parseStr of such documents on a plain or indexed parser, the model doing the '
+            'stripping, the real tokenizer supplying the tokens of the stripped text and of its wrapped form. Non-trivial (both '
+            'kinds): contains <!-- and if.')
     assumptions = ['the stdlib tokenizer is a parameter: the model is fed the token sequence the real html.parser reports for the '
                    'rendered markup (convert_charrefs=False, never close()d)',
+                   'the regular-expression engine (re) is trusted to implement the three patterns of utils.py; the model of '
+                   'stripIEConditionals is compared with the real function character by character (kinds strip, stripparse)',
                    'reserved wrapper tag name and children of script/style are outside the domain (property text)']
 
     def cases(self, tier, rng):
@@ -306,6 +450,25 @@ class Check(PropCheck):
             if rng.random() < 0.5:
                 text = rng.choice(heads) + rng.choice(doctypes) + text
             yield Case({'kind': 'wrap', 'text': text[:300]}, 'random-wrap')
+        # `stripIEConditionals` (what `feed` does to the text first): model vs the real function, and the oracle
+        # parseStr(text) == the rest of `feed` applied to stripIEConditionals(text)
+        for t in IE_FIXED + IE_NEAR + [o + b + c for o in IE_OPENERS[:6] for b in IE_BODIES[:3] for c in IE_CLOSERS[:2]]:
+            yield Case({'kind': 'strip', 'text': t}, 'exhaustive-strip')
+        for k in range(0, (4 if tier == 'thorough' else 3) + 1):
+            for seq in itertools.product(IE_FRAGS, repeat=k):
+                yield Case({'kind': 'strip', 'text': ''.join(seq)}, 'exhaustive-strip')
+        for _ in range(n):
+            yield Case({'kind': 'strip', 'text': ie_text(rng)}, 'random-strip')
+        # `parseStr(text)` end to end with the stripping step done by the model (tokenizer = the real one)
+        for t in IE_FIXED:
+            yield Case({'kind': 'stripparse', 'parser': 'plain', 'text': t}, 'exhaustive-strip')
+        for _ in range(n):
+            yield Case({'kind': 'stripparse', 'parser': rng.choice(('plain', 'indexed')), 'text': ie_text(rng)}, 'random-strip')
+        for _ in range(n // 2):
+            # fragment soup: overlapping dashes, openers without an end, ends without an opener, html tags anywhere
+            soup = ''.join(rng.choice(IE_FRAGS + IE_FRAGS[:5] + ['>', '<', '!', '[', 'if', '\t', '\r', '</HTML >', '< html >'])
+                           for _ in range(rng.randint(3, 14)))
+            yield Case({'kind': 'strip', 'text': soup}, 'random-strip')
 
     def random_tokens(self, rng):
         toks = []
@@ -365,11 +528,18 @@ class Check(PropCheck):
     def nontrivial(self, d):
         if d.get('kind') == 'wrap':
             return '<!' in d['text']
+        if d.get('kind') in ('strip', 'stripparse'):
+            return '<!--' in d['text'] and 'if' in d['text']
         return any(len(h['toks']) >= 2 and any(t[0] in ('start', 'startend') for t in h['toks']) for h in d['hist'])
 
     def features(self, d):
         if d.get('kind') == 'wrap':
             return ['kind:wrap']
+        if d.get('kind') == 'strip':
+            return self.strip_features(d['text'])
+        if d.get('kind') == 'stripparse':
+            return ['kind:stripparse', 'parser:' + d['parser']] + \
+                [f.replace('strip:', 'stripparse:') for f in self.strip_features(d['text'])[1:]]
         fs = {'parser:' + d['parser'], 'parses=%d' % len(d['hist'])}
         for h in d['hist']:
             fs.add('entry:' + h['entry'])
@@ -405,10 +575,10 @@ class Check(PropCheck):
         return sorted(fs)
 
     def shrink(self, d):
-        if d.get('kind') == 'wrap':
+        if d.get('kind') in ('wrap', 'strip', 'stripparse'):
             t = d['text']
             for i in range(len(t)):
-                yield {'kind': 'wrap', 'text': t[:i] + t[i + 1:]}
+                yield dict(d, text=t[:i] + t[i + 1:])
             return
         hist = d['hist']
         if len(hist) > 1:
@@ -437,6 +607,17 @@ class Check(PropCheck):
         if d.get('kind') == 'wrap':
             from ..core import enc
             return sx('wrap', enc(d['text']))
+        if d.get('kind') == 'strip':
+            from ..core import enc
+            return sx('strip', enc(d['text']))
+        if d.get('kind') == 'stripparse':
+            from ..core import enc
+            from AdvancedHTMLParser.utils import stripIEConditionals, addStartTag
+            from AdvancedHTMLParser.constants import INVISIBLE_ROOT_TAG_START, INVISIBLE_ROOT_TAG_END
+            st = stripIEConditionals(d['text'])
+            w = '%s%s' % (addStartTag(st, INVISIBLE_ROOT_TAG_START), INVISIBLE_ROOT_TAG_END)
+            return '(stripparse %s %s %s %s)' % (enc(d['text']), enc(st), parsing.toks_sx(parsing.tokenize(st)),
+                                                 parsing.toks_sx(parsing.tokenize(w)))
         return '(' + ' '.join(parsing.toks_sx(parsing.tokenize(render(h['toks'], h['rich']))) for h in d['hist']) + ')'
 
     def run_history(self, d):
@@ -462,6 +643,19 @@ class Check(PropCheck):
             from AdvancedHTMLParser.utils import addStartTag
             from AdvancedHTMLParser.constants import INVISIBLE_ROOT_TAG_START, INVISIBLE_ROOT_TAG_END
             return enc('%s%s' % (addStartTag(d['text'], INVISIBLE_ROOT_TAG_START), INVISIBLE_ROOT_TAG_END))
+        if d.get('kind') == 'strip':
+            from ..core import enc
+            from AdvancedHTMLParser.utils import stripIEConditionals
+            return enc(stripIEConditionals(d['text']))
+        if d.get('kind') == 'stripparse':
+            p = make_parser(d['parser'])
+            try:
+                p.parseStr(d['text'])
+            except Exception as e:      # noqa
+                return sx('raise', type(e).__name__)
+            root = p.getRoot()
+            second = root is not None and root.tagName == WRAPPER
+            return sx('second' if second else 'first', parsing.doc_sx(p))
         out = []
         for text, parser, exc in self.run_history(d):
             if exc is not None:
@@ -491,6 +685,8 @@ class Check(PropCheck):
     def oracle(self, d):
         if d.get('kind') == 'wrap':
             return self.wrap_oracle(d['text'])
+        if d.get('kind') in ('strip', 'stripparse'):
+            return self.strip_oracle(d['text'])
         for n, (text, parser, exc) in enumerate(self.run_history(d)):
             if exc is not None:
                 return ('raises', 'parse %d of %r raised %s: %s' % (n, text, type(exc).__name__, exc))
@@ -567,6 +763,65 @@ class Check(PropCheck):
             # only when the text lexes the same inside the wrapper (no unterminated construct swallowing the end tag)
             if parsing.tokenize(text + '<i>')[:len(toks)] == toks:
                 return ('wrap', 'addStartTag(%r) = %r: its tokens start with %r, expected %r' % (text, w, wt[:lead + 1], want))
+        return None
+
+    def strip_features(self, text):
+        from AdvancedHTMLParser.utils import stripIEConditionals, IE_CONDITIONAL_PATTERN, DOCTYPE_MATCH
+        ms = IE_CONDITIONAL_PATTERN.findall(text)
+        out = stripIEConditionals(text)
+        fs = ['kind:strip', 'strip:matches=%s' % (len(ms) if len(ms) < 4 else '4+')]
+        if ms:
+            fs.append('strip:changed' if out != text else 'strip:unchanged')
+            if len(set(ms)) < len(ms):
+                fs.append('strip:repeated-match')
+            removed = text
+            for m in ms:
+                removed = removed.replace(m, '')
+            if out != removed:
+                fs.append('strip:html-added' + ('-after-doctype' if DOCTYPE_MATCH.match(removed) else ''))
+            if text.count(ms[0]) > 1:
+                fs.append('strip:match-occurs-twice')
+            if any('-->' in m[:-3] for m in ms):
+                fs.append('strip:greedy-over-arrow')
+            if stripIEConditionals(out) != out:
+                fs.append('strip:not-idempotent')
+        elif '<!--' in text and 'if' in text:
+            fs.append('strip:near-miss')
+        if '\n' in text:
+            fs.append('strip:multi-line')
+        exp = ie_expected(text)
+        fs.append('strip:theorem-' + (exp[0] if exp else 'none') + ('' if ms or not exp else '-no-marker'))
+        return fs
+
+    def strip_oracle(self, text):
+        """`parseStr(text)` is the rest of `feed` (tokenize; on MultipleRootNodeException wrap and tokenize again) applied to
+        `stripIEConditionals(text)` — stripped exactly once, whatever the stripping leaves behind"""
+        from AdvancedHTMLParser.utils import stripIEConditionals
+        stripped = stripIEConditionals(text)
+        if not isinstance(stripped, str):
+            return ('strip', 'stripIEConditionals(%r) returned %s' % (text, type(stripped).__name__))
+        exp = ie_expected(text)
+        if exp is not None and exp[1] != stripped:
+            return ('strip-theorem', 'stripIEConditionals(%r) = %r, but the side conditions of stripIE_%s hold and give %r'
+                    % (text, stripped, exp[0], exp[1]))
+        for kind in ('plain', 'indexed'):
+            outs = []
+            for how in ('parseStr', 'bytes', 'raw'):
+                p = make_parser(kind)
+                try:
+                    if how == 'parseStr':
+                        p.parseStr(text)
+                    elif how == 'bytes':
+                        p.parseStr(text.encode('utf-8'))
+                    else:
+                        p.reset()
+                        ie_raw_feed(p, stripped)
+                    outs.append(parsing.doc_sx(p))
+                except Exception as e:      # noqa
+                    outs.append('raise ' + type(e).__name__)
+            if outs[0] != outs[2] or outs[1] != outs[2]:
+                return ('strip-parse', '%s parser: parseStr(%r) = %s / bytes %s, but feeding stripIEConditionals(text) = %r gives %s'
+                        % (kind, text, outs[0][:300], outs[1][:300], stripped, outs[2][:300]))
         return None
 
     def _as_lib(self, blocks):
